@@ -7,13 +7,24 @@ NAIVE = dict(threads=1, seminaive=False, enc="plain")
 PROFILES = [
     dict(fns=["min", "union"], nrules=4, nsets=2, rels=2, intcon=1, ncmds=14, checks=0.2, sched_depth=2, late_rules=0.5, depth=2),
     dict(fns=["max", "or"], nrules=5, nsets=2, rels=2, unary=2, ncmds=16, checks=0.1, sched_depth=1, late_rules=0.4, growth=False, subsume=0.2),
+    # containers rebuilt in place (nested up to three levels) with rules matching through their contents
+    dict(consts=2, unary=1, binary=0, fns=[], rels=1, nrules=3, nsets=1, conts=["vvv"], cont_rules=1.0, templ=1.0, ncmds=14,
+         checks=0.1, depth=1, sched_depth=1, cont_n=[1, 1, 1, 2]),
+    dict(consts=3, unary=1, binary=0, fns=["min"], rels=1, nrules=4, nsets=2, conts=["vec", "sv"], cont_rules=0.7, ncmds=14,
+         checks=0.1, depth=1, sched_depth=1, cont_n=[1, 1, 2], late_rules=0.4),
 ]
+
+
+def scenarios(tier):
+    from . import sessgen, core
+    return sessgen.container_scenarios(50 if tier == "quick" else 1500, core.seed() + 17)
 
 
 def check(tier):
     return family.check_family(
         "C03", tier, "c03",
         [("P3", "MC_EggAbs.cfg", 3, 4), ("P2", "MC_EggAbs.cfg", 3, 4)],
-        PROFILES, [(family.SEQ, None), (NAIVE, None)], (40, 500),
+        PROFILES, [(family.SEQ, None), (NAIVE, None)], (30, 400),
         ["monotone programs only (no delete); rules declared late and several rulesets exercise per-rule last-run timestamps",
-         "naive evaluation is not the oracle: both modes are compared with EggAbs (whose RunOnce is the naive semantics)"])
+         "naive evaluation is not the oracle: both modes are compared with EggAbs (whose RunOnce is the naive semantics)"],
+        extra_sessions=scenarios)
